@@ -337,7 +337,9 @@ class CurveOfGrowth(ProfileBase):
         profile = self.profile
         diff = np.diff(profile) <= 0
         if np.any(diff):
-            idx = np.argmax(diff)  # first non-monotonic point
+            # diff[idx] is the first non-increasing step, i.e., the
+            # profile is strictly increasing up to and including idx
+            idx = np.argmax(diff) + 1
             radius = radius[0:idx]
             profile = profile[0:idx]
 
